@@ -11,7 +11,7 @@ using namespace vo;
 using MatXd = Eigen::MatrixXd;
 const char* vf_driver() { return "c16_svd"; }
 static const LD C = 200, G = 4;
-static const char* KIND[] = {"prescribed-singular-values", "gaussian", "rank-deficient", "zero-tail", "scaled", "near-double-leading-values"};
+static const char* KIND[] = {"prescribed-singular-values", "gaussian", "rank-deficient", "zero-tail", "scaled", "near-double-leading-values", "equal-singular-values"};
 static const char* STOR[] = {"dense-colmajor", "dense-rowmajor", "sparse-colmajor", "sparse-rowmajor"};
 
 template <class SVD, class Info>
@@ -146,7 +146,7 @@ void vf_run_case(vf::Ctx& ctx, long idx)
     if (shape == 0 && m <= n) m = n + (int) r.range(1, 10);
     if (shape == 1 && m >= n) n = m + (int) r.range(1, 10);
     if (shape == 2) n = m;
-    const int kind = corpus ? 4 : (int) r.range(0, 5);
+    const int kind = corpus ? 4 : (int) r.range(0, 6);
     if (kind == 5)
     {
         // larger problems: the bulk has to be wide enough for the iteration to take several restarts
@@ -167,6 +167,8 @@ void vf_run_case(vf::Ctx& ctx, long idx)
         for (int i = 0; i < mn; i++) sv[i] = 1.0 / (1.0 + i) + 0.01 * r.uni();
         if (kind == 2) { const int rk = (int) r.range(1, std::max(1, mn / 2)); for (int i = rk; i < mn; i++) sv[i] = 0; }
         if (kind == 3) for (int i = mn / 2; i < mn; i++) sv[i] = 1e-9 * r.uni();
+        // a multiple of a (partial) isometry: every non-zero singular value is the same, A'A v0 is an exact eigenvector and the Lanczos process breaks down at once
+        if (kind == 6) { const double c = std::pow(2.0, (double) r.range(-3, 3)); const int rk = r.coin(0.5) ? mn : (int) r.range(2, std::max(2, mn)); for (int i = 0; i < mn; i++) sv[i] = i < rk ? c : 0.0; }
         // a nearly double value among the leading ones converges late: the converged ones are then not a prefix of the wanted list
         if (kind == 5)
         {
